@@ -494,6 +494,7 @@ func (w *World) Prepare(o *Obligation, lemmaMax int) ([]*Term, *prep) {
 	for _, h := range o.Hyps {
 		splitConj(h, &base)
 	}
+	goalStart := len(base)
 	if !o.Cover {
 		splitConj(Not(o.Goal), &base)
 	}
@@ -668,8 +669,22 @@ func (w *World) Prepare(o *Obligation, lemmaMax int) ([]*Term, *prep) {
 					}
 				}
 			}
-			if false && nFresh > 0 && nFresh <= 24 {
-				for _, f := range base {
+			// goal closure: the GOAL alone (not the hypotheses) is instantiated once more at the
+			// witnesses and index terms that the last round produced - the final step of a chain
+			// "hypothesis A gives j, hypothesis B at j gives k, the goal's exists is witnessed by k"
+			// then needs no extra full round. Cheap: only the goal's own quantifiers are expanded.
+			last := map[string]map[*Term]bool{}
+			collectCands(nb, last)
+			for key, m := range last {
+				for c := range m {
+					if !known[c] {
+						addCand(fresh, key, c)
+						nFresh++
+					}
+				}
+			}
+			if nFresh > 0 && nFresh <= 400 && goalStart < len(base) && !hints.NoGoalClosure {
+				for _, f := range base[goalStart:] {
 					if containsQuant(f) {
 						splitConj(p.inst(f, true, fresh), &result)
 					}
